@@ -13,11 +13,15 @@ import (
 	"sync"
 	"time"
 
+	"github.com/ontio/ontology-crypto/ec"
+	"github.com/ontio/ontology-crypto/keypair"
 	"github.com/ontio/ontology/common"
 	"github.com/ontio/ontology/common/config"
 	ct "github.com/ontio/ontology/core/types"
 	pcom "github.com/ontio/ontology/p2pserver/common"
 	"github.com/ontio/ontology/p2pserver/message/types"
+
+	"pgregory.net/rapid"
 
 	"verifharness/internal/fix"
 	"verifharness/internal/harn"
@@ -27,6 +31,8 @@ import (
 const (
 	keyAddrCount = "addr-count-overflow-panic"
 	keyCCSigLen  = "ccmsg-siglen-prealloc"
+	keyOffline   = "offline-proposersig-not-decoded"
+	keyOffCurve  = "offcurve-uncompressed-pubkey"
 )
 
 var setupOnce sync.Once
@@ -86,15 +92,28 @@ func parseHdr(stream []byte) (h hdrFields) {
 	return
 }
 
-// allocBound: cumulative allocation allowed while decoding one stream. The payload buffer may be as
-// large as the declared length (only when that is within MAX_PAYLOAD_LEN); everything else is
-// bounded, very generously, by a multiple of the bytes actually supplied.
+// allocBound: cumulative allocation allowed while decoding one stream.
+//   - the payload buffer may be as large as the declared length (only when that is legal);
+//   - decoders append one element per parsed element; the densest legal encoding is one payload
+//     byte (an empty var-bytes) per 24-byte slice header, and append's amortised growth multiplies
+//     that by up to ~6, so 256 x the bytes supplied (+ 1 MiB) is the smallest multiplier that can
+//     not be reached by allocation that is proportional to the input;
+//   - decompressing a P-224 public key (math/big ModSqrt, Tonelli-Shanks) churns 0.3-2.5 MB per key
+//     and varies from run to run: 8 MiB are granted per place where such a key can start
+//     (bytes 12 01, or "1201" inside a hex string).
+//
+// A count-driven pre-allocation (make by a hostile count >= 2^20) still exceeds this by far.
 func allocBound(stream []byte) uint64 {
-	b := uint64(64*len(stream)) + 1<<20
+	b := uint64(256*len(stream)) + 1<<20 + p224Slack(stream)
 	if h := parseHdr(stream); h.ok && h.length <= pcom.MAX_PAYLOAD_LEN {
 		b += uint64(h.length)
 	}
 	return b
+}
+
+func p224Slack(stream []byte) uint64 {
+	n := bytes.Count(stream, []byte{0x12, 0x01}) + bytes.Count(stream, []byte("1201"))
+	return uint64(n) * (8 << 20)
 }
 
 var memA, memB runtime.MemStats
@@ -169,6 +188,10 @@ func judge(stream []byte) (v verdict) {
 		return
 	}
 	m2, _, err2, pan2, _, _ := readMeasured(f2)
+	if (pan2 != nil || err2 != nil) && hasOffCurveKey(msg) {
+		v.Kind, v.Detail = "offcurve", fmt.Sprintf("decoded a message with a public key that is not on its curve; its re-serialization %x does not decode: err=%v panic=%v", f2, err2, pan2)
+		return
+	}
 	if pan2 != nil || err2 != nil {
 		v.Kind, v.Detail = "redecode", fmt.Sprintf("re-serialized message %x does not decode: err=%v panic=%v", f2, err2, pan2)
 		return
@@ -184,6 +207,52 @@ func judge(stream []byte) (v verdict) {
 	}
 	v.Kind = "msg"
 	return
+}
+
+// messageKeys lists the public keys a decoded message holds.
+func messageKeys(m types.Message) (keys []keypair.PublicKey) {
+	hdr := func(h *ct.Header) {
+		if h != nil {
+			keys = append(keys, h.Bookkeepers...)
+		}
+	}
+	switch v := m.(type) {
+	case *types.Consensus:
+		keys = append(keys, v.Cons.Owner)
+	case *types.UpdatePeerKeyId:
+		if v.KadKeyId != nil {
+			keys = append(keys, v.KadKeyId.PublicKey)
+		}
+	case *types.SubnetMembersRequest:
+		keys = append(keys, v.PubKey)
+	case *types.BlkHeader:
+		for _, h := range v.BlkHdr {
+			hdr(h)
+		}
+	case *types.Block:
+		if v.Blk != nil {
+			hdr(v.Blk.Header)
+		}
+	}
+	return
+}
+
+// hasOffCurveKey: recogniser of the recorded finding "uncompressed public keys are not validated":
+// the message holds an EC public key whose point is not on its curve.
+func hasOffCurveKey(m types.Message) (off bool) {
+	defer func() {
+		if recover() != nil {
+			off = true
+		}
+	}()
+	for _, k := range messageKeys(m) {
+		if e, ok := k.(*ec.PublicKey); ok && e != nil && e.PublicKey != nil {
+			if e.X == nil || e.Y == nil || !e.Curve.IsOnCurve(e.X, e.Y) {
+				return true
+			}
+		}
+	}
+	return false
 }
 
 func magic() uint32     { return config.DefConfig.P2PNode.NetworkMagic }
@@ -264,11 +333,36 @@ func framePayload(stream []byte) (string, []byte, bool) {
 }
 
 var (
-	knownOnce            sync.Once
-	knownAddr, knownCC   bool
-	addrStill, ccStill   bool
-	addrDetail, ccDetail string
+	knownOnce                       sync.Once
+	knownAddr, knownCC, knownOff    bool
+	addrStill, ccStill, offStill    bool
+	addrDetail, ccDetail, offDetail string
+	knownCurve, curveStill          bool
+	curveDetail                     string
 )
+
+// witnessOffCurve: a consensus message whose owner key is the uncompressed P-256 "point"
+// (x = 03 00..00, y = 0), which is not on the curve.
+func witnessOffCurve() []byte {
+	p := &pb{}
+	p.u32(0)
+	p.raw(make([]byte, 32))
+	p.u32(1)
+	p.u16(0)
+	p.u32(0)
+	p.varbytes("data", nil)
+	key := make([]byte, 65)
+	key[0], key[1] = 0x04, 0x03
+	p.varbytes("owner", key)
+	p.varbytes("sig", nil)
+	return refFrame(pcom.CONSENSUS_TYPE, p.b)
+}
+
+// witnessOffline: a correctly signed offline-witness message (reference encoding, fixed example).
+func witnessOffline() []byte {
+	g := rapid.Custom(func(t *rapid.T) gm { return genMsgOf(t, pcom.SUBNET_OFFLINE_TYPE) }).Example(7)
+	return refFrame(pcom.SUBNET_OFFLINE_TYPE, g.p.b)
+}
 
 func witnessAddr() []byte { return refFrame(pcom.ADDR_TYPE, []byte{0, 0, 0, 0, 0, 0, 0, 0x80}) }
 
@@ -302,6 +396,12 @@ func replayKnown() {
 			ccStill, ccDetail = v.bad(), v.Kind+": "+v.Detail
 		}
 		knownCC = harn.Known("C24", keyCCSigLen, ccStill)
+		v = judge(witnessOffline())
+		offStill, offDetail = v.Kind != "msg", v.Kind+": "+v.Detail
+		knownOff = harn.Known("C24", keyOffline, offStill)
+		v = judge(witnessOffCurve())
+		curveStill, curveDetail = v.bad(), v.Kind+": "+v.Detail
+		knownCurve = harn.Known("C24", keyOffCurve, curveStill)
 	})
 }
 
@@ -359,9 +459,18 @@ func judgeGuarded(ev *harn.Collector, stream []byte) (v verdict, excluded bool) 
 				if to {
 					ev.Class("timeout")
 				}
+				if v.Kind == "offcurve" && knownCurve {
+					ev.Excluded()
+					return verdict{Kind: "err", Detail: "excluded " + keyOffCurve}, true
+				}
 				return v, false
 			}
 		}
 	}
-	return judge(stream), false
+	v = judge(stream)
+	if v.Kind == "offcurve" && knownCurve {
+		ev.Excluded()
+		return verdict{Kind: "err", Detail: "excluded " + keyOffCurve}, true
+	}
+	return v, false
 }
